@@ -49,9 +49,9 @@ def idKey : Bytes := [73, 68]                                                   
 /-- strings.HasPrefix -/
 def hasPrefix (p s : Bytes) : Bool := s.take p.length == p
 
-/-! ### bufio.Scanner (default buffer) with bufio.ScanLines -/
+/-! ### bufio.Scanner (buffer raised to 1 MiB, as in the fasta readers) with bufio.ScanLines -/
 
-def maxToken : Nat := 65536
+def maxToken : Nat := 1048576
 
 /-- the lines ReadGFF gets to see: everything before the first over-long line -/
 def scanLines (text : Bytes) : List Bytes :=
@@ -184,6 +184,7 @@ inductive Err where
   | faDiffLen      -- FASTA section: records of different length
   | faInvalid      -- FASTA section: invalid nucleotide
   | faEmpty        -- FASTA section: no record
+  | tooLong        -- bufio.ErrTooLong: a line of 1 MiB or more (reported since fix: Scanner.Err is looked at)
   deriving DecidableEq, Repr
 
 inductive Result where
@@ -421,8 +422,16 @@ def readLines (lines : List Bytes) : Result :=
   | .error e => .error e
   | .ok s => finish s
 
-/-- gff.ReadGFF on a whole text -/
-def readGFF (text : Bytes) : Result := readLines (scanLines text)
+/-- some line is too long for the scanner -/
+def tooLong (text : Bytes) : Bool := (splitLinesAux text []).any fun l => decide (maxToken ≤ l.length)
+
+/-- gff.ReadGFF on a whole text: the scanner delivers the lines before the first over-long one; after the loop the
+    reader looks at Scanner.Err and reports such a line (before the fix the rest of the file was dropped silently).
+    An error met in a line BEFORE the long one is returned first, as the loop returns at once. -/
+def readGFF (text : Bytes) : Result :=
+  match loop {} (scanLines text) with
+  | .error e => .error e
+  | .ok s => if tooLong text then .error .tooLong else finish s
 
 /-! ### rendering: what a GFF3 writer produces for structured rows (the generator of stream C14gff writes these
 bytes for its canonical layout; the driver checks that) -/
